@@ -130,6 +130,7 @@ inductive ParseErr
   | fixedConfig   -- "fixed order not allowed for .config"
   | unitKey       -- ".unit is only allowed in filters"
   | emptyKey      -- newExtractor: "key must not be empty"
+  | unknownOrder  -- the literal order name "fixed" (a fixed order without a value list)
   deriving Repr, DecidableEq, Inhabited
 
 def isFixed : Order → Bool
@@ -139,7 +140,8 @@ def isFixed : Order → Bool
 /-- `makeProjection`. The parser state is returned also on error: side effects made before the
 error stay (as in the code). -/
 def makeProjection (p : Parser) (s : Proj) (sp : Spec) : Parser × Except ParseErr Proj :=
-  if sp.key == dotConfig then
+  if sp.order == .fixed [] then (p, .error .unknownOrder)
+  else if sp.key == dotConfig then
     if isFixed sp.order then (p, .error .fixedConfig)
     else
       let p := { p with haveConfig := true }
